@@ -88,6 +88,15 @@ def storage_inputs(rng):
     for c in (-1, -2 ** 31, 0x7fffffff):
         out.append(("storage.Peers", i32(2) + i32(1) + i32(c) + b"x" * 8, "peers.go:readPeer:addressSize"))
         out.append(("storage.PeerBuf:2", i32(c) + b"x" * 8, "peers.go:readPeer:addressSize"))
+    # mid-range sizes (valid by the record format's own limit), with and without the claimed bytes present, and
+    # honest long records
+    for c in (255, 256, 257, 300, 4096, 65535, 65536):
+        out.append(("storage.Peers", i32(2) + i32(1) + i32(c) + b"x" * 8, "peers.go:readPeer:addressSize"))
+        out.append(("storage.PeerBuf:2", i32(c) + b"x" * 8, "peers.go:readPeer:addressSize"))
+        if c <= 65535:
+            out.append(("storage.Peers", i32(2) + i32(1) + i32(c) + b"a" * c + i32(5) + u32(1600000000), "peers.go:readPeer:addressSize"))
+    for n in (1, 1023, 1024, 1025, 5000):
+        out.append(("storage.Peers", i32(2) + i32(n) + peer * n, "peers.go:PeerRepository.Load:count"))
     out.append(("storage.Peers", i32(2) + i32(1) + peer, "peers.go:valid"))
     for c in (0xffffffff, 0x80000000, 0x10000000):
         out.append(("storage.Reorg", u32(5) + u32(c), "reorgs.go:Reorg.Read:count"))
